@@ -89,6 +89,38 @@ class Driver:
         return merged
 
 
+def run_blocks(drv, blocks, shards=16, timeout=3600):
+    """blocks: list of lists of S-expression lines (each block is self-contained: sets its own state).
+    Returns a list (per block) of lists of parsed results."""
+    import threading
+    if not blocks:
+        return []
+    shards = max(1, min(shards, len(blocks)))
+    assign = [[] for _ in range(shards)]
+    for i, b in enumerate(blocks):
+        assign[i % shards].append(i)
+    results = [None] * len(blocks)
+
+    def work(k):
+        lines = []
+        for i in assign[k]:
+            lines += blocks[i]
+        p = subprocess.Popen(['bash', '-c', 'ulimit -s unlimited 2>/dev/null; exec ' + drv.exe],
+                             stdin=subprocess.PIPE, stdout=subprocess.PIPE, text=True)
+        o, _ = p.communicate('\n'.join(lines) + '\n', timeout=timeout)
+        out = [ln for ln in o.split('\n') if ln != '']
+        pos = 0
+        for i in assign[k]:
+            n = len(blocks[i])
+            chunk = out[pos:pos + n]
+            pos += n
+            results[i] = [parse_sexp(x) for x in chunk] + [['error', 'driver_died']] * (n - len(chunk))
+    ths = [threading.Thread(target=work, args=(k,)) for k in range(shards)]
+    [t.start() for t in ths]
+    [t.join() for t in ths]
+    return results
+
+
 # ------------------------------------------------------------------ proof step
 
 def grep_forbidden():
